@@ -10,7 +10,7 @@ import (
 )
 
 func init() {
-	props["C10"] = &prop{gen: genC10, eval: evalC10, pure: true}
+	props["C10"] = &prop{gen: genC10, eval: evalC10, pure: true, par: func(string) bool { return true }}
 }
 
 func u64(s string) uint64 {
@@ -23,6 +23,16 @@ func u64(s string) uint64 {
 
 // freshEnc: an encoder must hand out a fresh slice every time: scribbling over one result must not change
 // what the next call with the same argument returns (no shared tables / caches behind the encoders)
+func freshEncE(enc func() (radius.Attribute, error)) bool {
+	return freshEnc(func() []byte {
+		a, err := enc()
+		if err != nil {
+			return nil
+		}
+		return a
+	})
+}
+
 func freshEnc(enc func() []byte) bool {
 	a := enc()
 	want := append([]byte{}, a...)
@@ -84,18 +94,27 @@ func evalC10Inner(op string, args []string) string {
 		}
 		return "ok " + hx(a) + " ok " + strconv.FormatUint(d, 10)
 	case "string":
+		if !freshEncE(func() (radius.Attribute, error) { return radius.NewString(string(unhx(args[0]))) }) {
+			return "encoder-result-shared"
+		}
 		a, err := radius.NewString(string(unhx(args[0])))
 		if err != nil {
 			return "err"
 		}
 		return "ok " + hx(a) + " ok " + hx([]byte(radius.String(a)))
 	case "bytes":
+		if !freshEncE(func() (radius.Attribute, error) { return radius.NewBytes(unhx(args[0])) }) {
+			return "encoder-result-shared"
+		}
 		a, err := radius.NewBytes(unhx(args[0]))
 		if err != nil {
 			return "err"
 		}
 		return "ok " + hx(a) + " ok " + hx(radius.Bytes(a))
 	case "ipaddr":
+		if !freshEncE(func() (radius.Attribute, error) { return radius.NewIPAddr(net.IP(unhx(args[0]))) }) {
+			return "encoder-result-shared"
+		}
 		a, err := radius.NewIPAddr(net.IP(unhx(args[0])))
 		if err != nil {
 			return "err"
@@ -106,6 +125,9 @@ func evalC10Inner(op string, args []string) string {
 		}
 		return "ok " + hx(a) + " ok " + hx(d)
 	case "ipv6addr":
+		if !freshEncE(func() (radius.Attribute, error) { return radius.NewIPv6Addr(net.IP(unhx(args[0]))) }) {
+			return "encoder-result-shared"
+		}
 		a, err := radius.NewIPv6Addr(net.IP(unhx(args[0])))
 		if err != nil {
 			return "err"
@@ -116,6 +138,9 @@ func evalC10Inner(op string, args []string) string {
 		}
 		return "ok " + hx(a) + " ok " + hx(d)
 	case "ifid":
+		if !freshEncE(func() (radius.Attribute, error) { return radius.NewIFID(net.HardwareAddr(unhx(args[0]))) }) {
+			return "encoder-result-shared"
+		}
 		a, err := radius.NewIFID(net.HardwareAddr(unhx(args[0])))
 		if err != nil {
 			return "err"
@@ -134,6 +159,9 @@ func evalC10Inner(op string, args []string) string {
 		if ns < 0 || ns > 999999999 {
 			return "BAD-CASE"
 		}
+		if !freshEncE(func() (radius.Attribute, error) { return radius.NewDate(time.Unix(sec, int64(ns))) }) {
+			return "encoder-result-shared"
+		}
 		a, err := radius.NewDate(time.Unix(sec, int64(ns)))
 		if err != nil {
 			return "err"
@@ -147,6 +175,11 @@ func evalC10Inner(op string, args []string) string {
 		id := u64(args[0])
 		if id > math.MaxUint32 {
 			return "BAD-CASE"
+		}
+		if !freshEncE(func() (radius.Attribute, error) {
+			return radius.NewVendorSpecific(uint32(id), radius.Attribute(unhx(args[1])))
+		}) {
+			return "encoder-result-shared"
 		}
 		a, err := radius.NewVendorSpecific(uint32(id), radius.Attribute(unhx(args[1])))
 		if err != nil {
@@ -162,6 +195,9 @@ func evalC10Inner(op string, args []string) string {
 		if t < 0 || t > 255 {
 			return "BAD-CASE"
 		}
+		if !freshEncE(func() (radius.Attribute, error) { return radius.NewTLV(byte(t), radius.Attribute(unhx(args[1]))) }) {
+			return "encoder-result-shared"
+		}
 		a, err := radius.NewTLV(byte(t), radius.Attribute(unhx(args[1])))
 		if err != nil {
 			return "err"
@@ -175,6 +211,9 @@ func evalC10Inner(op string, args []string) string {
 		var n *net.IPNet
 		if args[0] != "nil" {
 			n = &net.IPNet{IP: net.IP(unhx(args[0])), Mask: net.IPMask(unhx(args[1]))}
+		}
+		if !freshEncE(func() (radius.Attribute, error) { return radius.NewIPv6Prefix(n) }) {
+			return "encoder-result-shared"
 		}
 		a, err := radius.NewIPv6Prefix(n)
 		if err != nil {
